@@ -285,11 +285,17 @@ func NewUDPConn(network string, c *net.UDPConn, opts ...UDPOption) *UDPConn {
 
 // LocalAddr returns the local network address. The Addr returned is shared by all invocations of LocalAddr, so do not modify it.
 func (c *UDPConn) LocalAddr() net.Addr {
+	if v := verifUDP(c); v != nil {
+		return v.LocalAddr()
+	}
 	return c.connection.LocalAddr()
 }
 
 // RemoteAddr returns the remote network address. The Addr returned is shared by all invocations of RemoteAddr, so do not modify it.
 func (c *UDPConn) RemoteAddr() net.Addr {
+	if v := verifUDP(c); v != nil {
+		return v.RemoteAddr()
+	}
 	return c.connection.RemoteAddr()
 }
 
@@ -302,6 +308,9 @@ func (c *UDPConn) Network() string {
 func (c *UDPConn) Close() error {
 	if !c.closed.CompareAndSwap(false, true) {
 		return nil
+	}
+	if v := verifUDP(c); v != nil {
+		return v.Close()
 	}
 	return c.connection.Close()
 }
@@ -333,6 +342,9 @@ func toControlMessage(p packetConn, iface *net.Interface, src *net.IP) *ControlM
 func (c *UDPConn) writeToAddr(iface *net.Interface, src *net.IP, multicastHopLimit int, raddr *net.UDPAddr, buffer []byte) error {
 	if c.closed.Load() {
 		return ErrConnectionIsClosed
+	}
+	if v := verifUDP(c); v != nil {
+		return v.WriteToAddr(iface, src, multicastHopLimit, raddr, buffer)
 	}
 	p, err := newPacketConnWithAddr(raddr, c.connection)
 	if err != nil {
@@ -511,6 +523,9 @@ func (c *UDPConn) writeMulticast(ctx context.Context, raddr *net.UDPAddr, buffer
 }
 
 func (c *UDPConn) writeTo(raddr *net.UDPAddr, cm *ControlMessage, buffer []byte) (int, error) {
+	if v := verifUDP(c); v != nil {
+		return v.WriteTo(buffer, cm, raddr)
+	}
 	if !supportsOverrideRemoteAddr(c.connection) {
 		// If the remote address is set, we can use it as the destination address
 		// because the connection is already established.
@@ -788,5 +803,8 @@ func (c *UDPConn) LeaveGroup(ifi *net.Interface, group net.Addr) error {
 
 // NetConn returns the underlying connection that is wrapped by c. The Conn returned is shared by all invocations of NetConn, so do not modify it.
 func (c *UDPConn) NetConn() net.Conn {
+	if v := verifUDP(c); v != nil {
+		return v.NetConn()
+	}
 	return c.connection
 }
